@@ -57,6 +57,12 @@ CLAIMED = {
              "strip of one leading '=' - for all byte strings up to the bound. Alias keys, prefix inference and whole-ArgMatches equality are out of reach.",
         note="Re-uses C13/C14 harnesses over clap_lex; says nothing about parse_long_arg/parse_short_arg.",
         ref="2 C08"),
+    "C09": dict(
+        text="PARTIAL (very thin). Data-flow check (MIR->SMT path enumeration, feasibility by z3 + cvc5) of Parser::parse_subcommand: on every feasible path the child parser and the child matcher are both created "
+             "from the command returned by _build_subcommand(name), the child parser parses into the child's own matcher, the child's matches are attached to the parent matcher exactly once, and a child "
+             "error is returned iff errors are not ignored. Subcommand recognition (names, aliases, flag subcommands, inference), external subcommands and global-argument propagation are NOT decided.",
+        note="All callees opaque; argument identity is tracked by the keys of opaque call results; realised natively by a 3-level command with same-named arguments.",
+        ref="2 C09", technique="own MIR->SMT translation: call data-flow on paths, infeasibility of violating paths by z3 + cvc5, native replay"),
     "C10": dict(
         text="PARTIAL. (Kani) kind -> stream -> exit code for EVERY ErrorKind (exhaustive match, symbolic discriminant). (MIR->SMT) value-count verification: Parser::verify_num_args rejects "
              "exactly the counts outside the declared range and names the rule really broken (empty / wrong number / too few / too many), never when errors are ignored. "
@@ -97,7 +103,6 @@ CLAIMED = {
 }
 
 NOT_APPLICABLE = {
-    "C09": "subcommand recognition on even an unbuilt 2-subcommand tree exhausts 10 GB; dispatch/global propagation need built commands",
     "C11": "state that could leak is written by _build_self/_build_bin_names_internal which do not finish symbolic execution; needs repeated builds/parses",
     "C15": "proc-macro translation running inside rustc plus generated code over a built Command: neither reachable by Kani nor a loop-free scalar kernel for the MIR->SMT engine",
     "C16": "every generator starts with cmd.build(); 'accepted by bash' is a statement about an external interpreter",
@@ -138,7 +143,7 @@ def main():
         "engines": [
             {"name": "kani", "path": "/verif/runner/kani.py", "serves_properties": sorted(p for p in CLAIMED if p != "C12"),
              "kind_free_text": "Kani 0.68/CBMC 6.11 harnesses (kani/lex external crate; harness/*.rs included into clap_builder under cfg clap_verif); counterexamples replayed natively via concrete playback"},
-            {"name": "mirsmt", "path": "/verif/runner/mir_check.py", "serves_properties": ["C01", "C02", "C03", "C04", "C05", "C06", "C10", "C12", "C18", "C20"],
+            {"name": "mirsmt", "path": "/verif/runner/mir_check.py", "serves_properties": ["C01", "C02", "C03", "C04", "C05", "C06", "C09", "C10", "C12", "C18", "C20"],
              "kind_free_text": "MIR (cargo +nightly rustc -Zunpretty=mir, overflow checks on) of loop-free scalar functions -> SMT-LIB2 bit-vector queries (mirsmt/*.py), decided by z3 and cvc5; candidates realised by a native #[test] in the harness module"},
         ],
         "checks": checks,
